@@ -74,7 +74,7 @@ def register(R):
                                 (lambda c: z3.And(S.valid_flags(c.pre, c.ref('self')), S.valid_flags(c.pre, c.ref('other')))),
                        modifies=lambda c: [(f, [c.ref('self')]) for f in ('_priority', '_delete', '_safe', '_implicit_safe', '_default_safe', '_metadata')],
                        result=lambda c, it: c.a['self'],
-                       ensures=_replace_ensures(fn), opts={'callee': True}, props=('C03', 'C07')))
+                       ensures=_replace_ensures(fn), opts={'callee': True}, props=('C03', 'C04', 'C07')))
 
 
 def _alias_other(it, fr, sc):
@@ -111,7 +111,7 @@ def _replace_ensures(fn):
            ('flags-stay-valid', valid_after),
            ('C03.metadata-union-winner-wins-no-key-lost', md_ok)]
     if fn == '_replace_self':
-        out.append(('C03.takes-priority-and-delete-of-winner',
+        out.append(('C03+C04.takes-priority-and-delete-of-winner',
                     lambda c: z3.And(c.post.get('_priority', c.ref('self')) == c.pre.get('_priority', c.ref('other')),
                                      c.post.get('_delete', c.ref('self')) == c.pre.get('_delete', c.ref('other')))))
     else:
